@@ -786,6 +786,22 @@ public:
       propagate_data(s);      
     }
 
+    virtual void visit(typename visitor_t::arr_init_t &s) override {
+      propagate_data(s);
+    }
+
+    virtual void visit(typename visitor_t::arr_store_t &s) override {
+      propagate_data(s);
+    }
+
+    virtual void visit(typename visitor_t::arr_load_t &s) override {
+      propagate_data(s);
+    }
+
+    virtual void visit(typename visitor_t::arr_assign_t &s) override {
+      propagate_data(s);
+    }
+
     virtual void visit(make_ref_t &s) override {
       propagate_data(s);
     }
